@@ -204,17 +204,6 @@ pub open spec fn co_width_truncation(v: u128) -> bool { v > u32::MAX }
 pub open spec fn value_conforms(v: asg::TExpr, target: Type) -> bool {
     types::eq_upto_const(target, v.ty) || (v.expression is Cast && v.ty == target && v.expression->Cast_0.typ == target)
 }
-/// conversions that must always be diagnosed (from the statement): kind lowered (float -> int,
-/// complex -> real), anything to or from bit / bool / duration / angle of another kind
-pub open spec fn must_diagnose(target: Type, value: Type) -> bool {
-    ((target is Int || target is UInt) && (value is Float || value is Complex))
-    || (target is Float && value is Complex)
-    || ((target is Bit || target is Bool || target is Duration || target is Stretch || target is Angle || target is BitArray)
-        && !types::eq_upto_const(target, value) && !(target is Angle && value is Angle))
-    || ((value is Bit || value is Bool || value is Duration || value is Stretch || value is Angle || value is BitArray)
-        && !types::eq_upto_const(target, value) && !(target is Angle && value is Angle))
-}
-
 pub open spec fn des_expr(d: Option<&synast::Designator>) -> Option<synast::Expr> { match d { Some(x) => x.sp_expr(), None => None } }
 /// value of a designator that is an integer literal
 pub open spec fn des_int_literal(d: Option<&synast::Designator>) -> Option<u128> {
@@ -282,6 +271,11 @@ pub open spec fn type_diag_last(errs: Seq<SemanticErrorKind>) -> bool { errs.len
 pub open spec fn decl_ok(t: Type, v: asg::TExpr, errs: Seq<SemanticErrorKind>) -> bool {
     value_conforms(v, t) || type_diag_last(errs) || co_decl_silent(t, v)
 }
+
+/// an integer literal expression is typed int (its constructor IntLiteral::to_texpr says so)
+pub open spec fn int_lit_typed(t: asg::TExpr) -> bool { (t.expression is Literal && t.expression->Literal_0 is Int) ==> t.ty is Int }
+/// the type the value had before an explicit cast was put around it
+pub open spec fn orig_ty(v: asg::TExpr) -> Type { if v.expression is Cast { v.expression->Cast_0.operand.ty } else { v.ty } }
 
 // ---- C08 / C13: the assignment rule -----------------------------------------------------------------
 /// KF C08-assign-int-literal-silent: an integer literal assigned to a variable that is not `uint`
